@@ -175,7 +175,8 @@ _ADDED = {
            "acoustic (nearly at rest) and one-directional stream data at operator level; solve1d_large: implicit systems just above 256 "
            "unknowns and explicit runs up to 400 cells; call histories mixing dtlocal and default solves. "
            "Sliver cells (1e-3..1e-8 of their neighbours) and refined ratios of 1e3..1e6, streams with one or two exceptional cells, user-supplied asymmetric limiters."
-           " Source balance against the sources as the caller DECLARED them (nozzle geometric terms recomputed from the section law + the user's callables); Fortran-ordered / strided component arrays.",
+           " Source balance against the sources as the caller DECLARED them (nozzle geometric terms recomputed from the section law + the user's callables); Fortran-ordered / strided component arrays."
+           " Call history 'used once, then another discretisation of the same model built (and used)' in every 1D scenario.",
     "C02": "Also: integer-typed states, nearly equal and nearly opposite states, one state against an array, sub-arrays selected by regime / "
            "position / at random re-evaluated and compared bit for bit with the full-array call (elementwise), python floats and numpy scalars.",
     "C03": "Also: fields built by fdata_fromprim from python scalars ([rho, [u, v], p]), large meshes, nozzle section laws that vanish exactly "
@@ -184,7 +185,8 @@ _ADDED = {
            " Inlet Mach numbers down to 1e-7 (conditioning eps/M added to the tolerance, never divided out of the residual). Solve drift allowed round-off x the amplification the same solve applies to a 1e-12 perturbation (twin run, measured when the plain tolerance is exceeded): unstable fixed points of the insub / outsub_qtot closures = known finding D21 under its own key, other configurations amplifying > 1e4 counted as skipped.",
     "C04": "Also: arbitrary mesh origin and every class that builds a uniform mesh, maximum-norm order for the linear schemes, strong Riemann "
            "data (ratios 1e4, supersonic streams) on arbitrary meshes for the packaged reference, nozzle sections in any units. "
-           "Expansions through the sonic point (and mirror images): the density jump at the sonic point must shrink under refinement; error decrease strict.",
+           "Expansions through the sonic point (and mirror images): the density jump at the sonic point must shrink under refinement; error decrease strict."
+           " Convergence orders in other units of the data (1e-8..1e8), of the length (1e-6..1e6) and of the speed (1e-4..1e4); two intermediate snapshots of every run judged for order; Riemann sequences whose coarsest pair is pre-asymptotic continued to 800 cells.",
     "C05": "Also: right-hand sides that return fresh arrays, one work buffer overwritten at every call, or arrays they keep (look-up tables): "
            "coefficients and results must not depend on it and the kept arrays must come back untouched; the library's own propagator() and "
            "cflmax() against the stability function of the extracted tableau; every step inside real solves recomputed from the tableau. "
@@ -216,7 +218,8 @@ _ADDED = {
     "C13": "Also: a quarter of the twins with dtlocal, large problems, units of the nozzle section area, twins sharing scheme / model objects. "
            "Tolerances include ulp(x)/dx_min on sliver meshes (bitwise classes unchanged).",
     "C14": "Also: a quarter of the twins with dtlocal, large periodic meshes beyond the exhaustive sizes, grids periodic in one direction only. "
-           "Streams with one or two exceptional cells (first / last cell preferred).",
+           "Streams with one or two exceptional cells (first / last cell preferred)."
+           " Domains of 1e-9..1e9; streams with an exceptional cell at the seam sampled on purpose.",
     "C15": "Also: insup angles on the axes (0, -0.0, 90, 180, 270, 360; int and float), twins sharing one model object."
            " Fortran-ordered and strided-view component arrays (the layout the library itself builds from a uniform state) against their C-contiguous copies.",
     "C16": "Also: integer-typed interior states and parameters, nearly-at-rest states (wall reversal judged relative to the normal component "
@@ -225,13 +228,15 @@ _ADDED = {
     "C17": "Also: integer-typed states, mixed scalar / array arguments of prim2cons and cons2prim, large meshes, model objects re-discretised on "
            "other meshes. "
            "Post-processing helpers (average, stats) and in-place work on the arrays phydata returns, then field and variables re-judged; sub-array twins of the conversions."
-           " Gas units over 50 decades in the round trips.",
+           " Gas units over 50 decades in the round trips."
+           " Mach numbers up to 1e6 (htot / rttot judged without the M^2 conditioning of the pressure; definitions that overflow a double not compared).",
     "C18": "Also: fields carrying another model object of the same family, domain lengths 1e-9..1e9, large meshes; only admissible cells are "
            "judged; call histories with other CFL numbers (time steps recomputed by the monitor). "
            "Thin layers / rarefied states over 26 decades (formula of the statement as reference where the eigenvalues are ill-conditioned); under dtlocal the update of the last iteration recomputed with one time step per cell (forward Euler, implicit, Crank-Nicolson).",
     "C19": "Also: sources returning python floats, numpy scalars / 0-d arrays, lists, stored arrays and state components; integer-typed fields; "
            "section areas in any units; interleaved discretisations of one model object; three consecutive rhs calls. "
-           "Sources with a defaulted third parameter (callable objects and lambdas).",
+           "Sources with a defaulted third parameter (callable objects and lambdas)."
+           " Call histories: the same nozzle model handed to another discretisation before the first is used, after it was used once, or used itself in between.",
     "C20": "Also: every mesh judged again after other meshes were built; 2D meshes judged against the constructor arguments; positional / keyword "
            "/ default / numpy-integer call forms; integer-typed morphings; large meshes.",
 }
